@@ -1,0 +1,30 @@
+//go:build verif
+
+// Package verifhook provides instrumentation points for the external verification
+// harness. With the `verif` build tag, Point forwards to the handler installed by the
+// harness (which may log the event or block the calling goroutine to force a schedule).
+package verifhook
+
+import "sync/atomic"
+
+const Enabled = true
+
+type Handler func(name string, args ...any)
+
+var handler atomic.Pointer[Handler]
+
+// SetHandler installs (or, with nil, removes) the handler.
+func SetHandler(h Handler) {
+	if h == nil {
+		handler.Store(nil)
+		return
+	}
+	handler.Store(&h)
+}
+
+// Point reports that the calling goroutine reached the named point.
+func Point(name string, args ...any) {
+	if h := handler.Load(); h != nil {
+		(*h)(name, args...)
+	}
+}
